@@ -7,6 +7,7 @@ import (
 	"encoding/json"
 	"fmt"
 	"os"
+	"runtime/debug"
 	"runtime/pprof"
 
 	"vh/env"
@@ -104,11 +105,29 @@ func main() {
 	}
 }
 
-func safeRun(m proto.Model, hist []string) (r *proto.Result) {
-	defer func() {
-		if e := recover(); e != nil {
-			r = &proto.Result{Err: fmt.Sprintf("panic in harness/model: %v", e)}
-		}
+// safeRun executes the model in its own goroutine: a logging.CPrint(FATAL) inside wallet or
+// node code ends in logrus.Exit, which the harness turns into runtime.Goexit (env.Init);
+// the goroutine then simply ends and the trapped FATAL is reported.
+func safeRun(m proto.Model, hist []string) *proto.Result {
+	var r *proto.Result
+	done := make(chan struct{})
+	go func() {
+		defer close(done)
+		defer func() {
+			if e := recover(); e != nil {
+				r = &proto.Result{Err: fmt.Sprintf("panic in harness/model: %v\n%s", e, debug.Stack())}
+			}
+		}()
+		r = m.Run(hist)
 	}()
-	return m.Run(hist)
+	<-done
+	if r == nil {
+		f := env.TakeFatals()
+		st := ""
+		if len(f) > 0 {
+			st = f[0].Stack
+		}
+		r = &proto.Result{Err: "goroutine ended by a FATAL log exit while replaying (uncaught by the model):\n" + st}
+	}
+	return r
 }
